@@ -336,6 +336,67 @@ func c02Scenarios(tier string) []*world.Scenario {
 	for _, sz := range [][3]int{{1, 30, 30}, {70, 3, 20}, {3, 3, 90}} {
 		out = append(out, SlowMultiFlush("C02", sz, slowB))
 	}
+	// a connection that died in the middle of a message must leave nothing behind that alters another connection's bytes:
+	// (i) a client aborts inside a request, then another client's request arrives cut; (ii) a node dies inside a reply,
+	// then the reply to the next request (new connection) arrives cut
+	{
+		victim := SetReq(keysB[0], "hello\r\nworld")
+		ab := world.Cmd("set", keysA[0], strings.Repeat("A", 34))
+		for _, plen := range []int{1, 9, len(ab) - 30, len(ab) - 1} {
+			for _, rst := range []bool{false, true} {
+				for _, cut := range []int{4, 13, len(victim.Bytes) - 9, len(victim.Bytes) - 1} {
+					for _, cap := range []int{32, 65536} {
+						sc := AbortedNeighbour(ab[:plen], rst, []Req{victim}, []int{cut}, cap)
+						sc.Name = fmt.Sprintf("C02/aborted-neighbour/prefix%d/rst=%v/cut%d/cap%d", plen, rst, cut, cap)
+						raw := victim.Bytes
+						sc.Check = func(w *world.World) []world.Violation {
+							vs := CheckStreams(w, StreamOpts{})
+							for i := range vs {
+								vs[i].Sig = "reply-bytes-differ"
+							}
+							data := w.DataCmds("")
+							if len(data) != 1 || !bytes.Equal(data[0].Raw, raw) {
+								var got [][]byte
+								for _, d := range data {
+									got = append(got, d.Raw)
+								}
+								vs = append(vs, world.Violation{Sig: "request-bytes-differ:set", Msg: fmt.Sprintf("client sent %q after another connection died inside a request; the nodes received %q", raw, got)})
+							}
+							return append(vs, BackendsWellFormed(w)...)
+						}
+						out = append(out, sc)
+					}
+				}
+			}
+		}
+		for _, kind := range []string{"backend-close", "backend-rst"} {
+			for _, cut := range []int{1, 3, 7} {
+				sc := BackendLossMidReply(kind, cut, slowB)
+				sc.Name = fmt.Sprintf("C02/backend-loss-mid-reply/%s/cut%d/d%d", kind, cut, sc.Bound)
+				sc.Check = func(w *world.World) []world.Violation {
+					var vs []world.Violation
+					c := w.Clients[0]
+					rs, rest, malformed := world.SplitReplies(c.Received)
+					if malformed || len(rest) > 0 || len(rs) > 2 {
+						return []world.Violation{{Sig: "reply-bytes-differ", Msg: fmt.Sprintf("client stream %q", c.Received)}}
+					}
+					for j, r := range rs {
+						// the request whose connection died may be answered with an error; otherwise the node's bytes, unchanged
+						if !bytes.Equal(r, c.Spec.Expect[j]) && !world.IsError(r) {
+							vs = append(vs, world.Violation{Sig: "reply-bytes-differ", Msg: fmt.Sprintf("request %d (%q) was answered %q; the node sent %q", j, c.Spec.Reqs[j], r, c.Spec.Expect[j])})
+						}
+					}
+					for _, d := range w.DataCmds("") {
+						if !bytes.Equal(d.Raw, c.Spec.Reqs[0]) && !bytes.Equal(d.Raw, c.Spec.Reqs[1]) {
+							vs = append(vs, world.Violation{Sig: "request-bytes-differ:get", Msg: fmt.Sprintf("a node received %q", d.Raw)})
+						}
+					}
+					return append(vs, BackendsWellFormed(w)...)
+				}
+				out = append(out, sc)
+			}
+		}
+	}
 	if thorough {
 		// "multi-megabyte" argument, production buffer sizes
 		big := strings.Repeat("M", 2<<20)
@@ -794,7 +855,7 @@ func c04Scenarios(tier string) []*world.Scenario {
 
 func init() {
 	register(&Check{ID: "C02", Level: "model_checking",
-		Rule:      "every forwarded single-fragment command of the supported table x allowed argument counts x 3 letter-case variants x rotating argument contents {plain, empty, CRLF, '$-1', binary, 72-byte, embedded RESP, '-1'} (thorough: 1.1k/4.2k/70k/2MiB arguments) x 18 reply shapes (status, errors, integers incl. extremes, null/empty/binary/CRLF bulks, null/empty/nested arrays, 5 kB bulk), with and without password+replica handshakes, as closed-loop batches; for GET/SET/EVAL/HMSET every single cut (thorough: every pair of cuts) of the request and of the reply, each with <= 1 scheduling deviation; slow reader (one reply; a pipeline of replies crossing the 64-byte ring/list boundary of the outbound buffer; three replies released by one vectored write) under every EAGAIN/short-write answer within the bound; handshake replies and first data replies arriving in one read; oracle: node bytes = client bytes modulo case of the command name, client bytes = node reply bytes; non-trivial = scenario with a cut, a deviation or a non-default write answer; distinct = observable outcomes",
+		Rule:      "every forwarded single-fragment command of the supported table x allowed argument counts x 3 letter-case variants x rotating argument contents {plain, empty, CRLF, '$-1', binary, 72-byte, embedded RESP, '-1'} (thorough: 1.1k/4.2k/70k/2MiB arguments) x 18 reply shapes (status, errors, integers incl. extremes, null/empty/binary/CRLF bulks, null/empty/nested arrays, 5 kB bulk), with and without password+replica handshakes, as closed-loop batches; for GET/SET/EVAL/HMSET every single cut (thorough: every pair of cuts) of the request and of the reply, each with <= 1 scheduling deviation; slow reader (one reply; a pipeline of replies crossing the 64-byte ring/list boundary of the outbound buffer; three replies released by one vectored write) under every EAGAIN/short-write answer within the bound; handshake replies and first data replies arriving in one read; a request arriving cut after another client died inside a request (FIN/RST, 4 prefix lengths, read caps 32/65536, descriptor reuse), a reply arriving cut over a new connection after the node died inside the previous reply; oracle: node bytes = client bytes modulo case of the command name, client bytes = node reply bytes; non-trivial = scenario with a cut, a deviation or a non-default write answer; distinct = observable outcomes",
 		Scenarios: c02Scenarios, BudgetQuick: 100, BudgetThorough: 1500,
 		Assumptions: []string{"multi-megabyte arguments are represented by sizes crossing every buffer threshold in the code (64 B caps, 1 KiB ring default, 4 KiB growth step, 64 KiB read buffer) and one 2 MiB value in the thorough tier"}})
 	register(&Check{ID: "C04", Level: "model_checking",
